@@ -542,6 +542,10 @@ class CopyEqualsByKind(Contract):
             for target in ("same", "other"):
                 yield {"kind": kind, "target": target}
             yield {"kind": kind, "target": "same", "clear_cache": True}
+        # copy(uid=...): the copy carries the identifier asked for
+        for kind in ("points", "curve", "drillhole"):
+            for target in ("same", "other"):
+                yield {"kind": kind, "target": target, "uid_requested": True}
         # a property group of a DC survey that lists the survey's own "A-B Cell ID" channel next to ordinary data
         for target in ("same", "other"):
             yield {"kind": "dcip", "target": target, "grouped_ab": True}
@@ -585,10 +589,31 @@ class CopyEqualsByKind(Contract):
                 groups_of = lambda ent: sorted((g.name, sorted(ent.get_entity(u)[0].name for u in (g.properties or []))) for g in (ent.property_groups or []))
                 before = self._describe(obj)
                 groups_before = groups_of(obj)
+                import signal
+                import uuid as _uuid
+
+                extra = {"clear_cache": True} if case.get("clear_cache") else {}
+                if case.get("uid_requested"):
+                    extra["uid"] = _uuid.UUID(int=4242)
+
+                def _late(*_a):
+                    raise TimeoutError
+
+                old_handler = signal.signal(signal.SIGALRM, _late)
+                signal.alarm(60)
                 try:
-                    new = obj.copy(parent=other if case["target"] == "other" else None, **({"clear_cache": True} if case.get("clear_cache") else {}))
+                    new = obj.copy(parent=other if case["target"] == "other" else None, **extra)
                 except KeyError as exc:
                     return f"a {case['kind']} could not be copied: KeyError {exc} ({case})"
+                except TimeoutError:
+                    return f"copy({', '.join(k + '=...' for k in extra)}) of a {case['kind']} with {len(before) and len([k for k in before if k.startswith('data:')])} data had not returned after 60 s; its source now holds {len(obj.children)} children ({case})"
+                finally:
+                    signal.alarm(0)
+                    signal.signal(signal.SIGALRM, old_handler)
+                if new is None:
+                    return f"copy({', '.join(k + '=...' for k in extra)}) of a {case['kind']} returned nothing ({case})"
+                if case.get("uid_requested") and new.uid != extra["uid"]:
+                    return f"copy(uid=...) of a {case['kind']}: the copy carries the identifier {new.uid}, {extra['uid']} was asked for ({case})"
                 got = self._describe(new)
                 if groups_of(new) != groups_before:
                     return f"the copy of a {case['kind']} has the property groups {groups_of(new)}, its source {groups_before} ({case})"
@@ -679,7 +704,7 @@ class CopyToParent(Contract):
     uses = (GetAttributesStub, ClearArraysStub)
 
     def cases(self):
-        return [(kind, free, target, clear) for kind in ("object", "data", "drillhole") for free in (True, False) for target in ("group", "workspace") for clear in (False, True)] + [("object", True, "not-a-container", False)] + [("root", free, target, False) for free in (True, False) for target in ("group", "workspace")]
+        return [(kind, free, target, clear) for kind in ("object", "data", "drillhole") for free in (True, False) for target in ("group", "workspace") for clear in (False, True)] + [("object", True, "not-a-container", False)] + [("root", free, target, False) for free in (True, False) for target in ("group", "workspace")] + [("object-with-uid", free, "group", False) for free in (True, False)]
 
     def setup(self, ctx):
         from geoh5py.data import FloatData
@@ -688,7 +713,7 @@ class CopyToParent(Contract):
         from geoh5py.workspace import Workspace
 
         kind, free, target, clear = ctx.case
-        cls = {"object": Points, "data": FloatData, "drillhole": Drillhole, "root": RootGroup}[kind]
+        cls = {"object": Points, "data": FloatData, "drillhole": Drillhole, "root": RootGroup, "object-with-uid": Points}[kind]
         me = Opaque("self", cls=Workspace)
         ent = Opaque("entity", cls=cls)
         ent.attrs["uid"] = Opaque("entity.uid")
@@ -705,7 +730,9 @@ class CopyToParent(Contract):
         ctx.path.assume(~vm.none_var())
         ctx.path.assume(~cm.none_var())
         ctx.env.update(vm=vm, cm=cm)
-        ctx.env["attrs_of"] = lambda e_, base: PDict({**(getattr(base, "items", base) or {}), **attrs}) if e_ is ent else PDict({"name": "type-name", "uid": Opaque("type.uid"), "value_map": vm, "color_map": cm})
+        type_uid = Opaque("type.uid")
+        ctx.env["type_uid"] = type_uid
+        ctx.env["attrs_of"] = lambda e_, base: PDict({**(getattr(base, "items", base) or {}), **attrs}) if e_ is ent else PDict({"name": "type-name", "uid": type_uid, "value_map": vm, "color_map": cm})
         tws = Opaque("target-workspace", cls=Workspace)
         ge = Opaque("target.get_entity")
         taken_by = Opaque("someone-else")
@@ -738,6 +765,11 @@ class CopyToParent(Contract):
         me.attrs["get_entity"] = own_ge
         me.attrs["find_entity"] = own_ge
         ctx.env.update(ent=ent, md=md, parent=parent, root=root, new=new, attrs=attrs)
+        if kind == "object-with-uid":
+            req = Opaque("requested-uid")
+            ctx.path.assume(~req.none_var())
+            ctx.env["req"] = req
+            return [me, ent, parent], {"clear_cache": clear, "visible": True, "not_an_attribute": 5, "uid": req}
         return [me, ent, parent], {"clear_cache": clear, "visible": True, "not_an_attribute": 5}
 
     def post(self, ctx, result):
@@ -758,10 +790,16 @@ class CopyToParent(Contract):
         if not ok:
             return
         ei = ek.items
-        ctx.oblige("identifier-kept-exactly-when-free-in-the-target", (ei.get("uid") is e["ent"].attrs["uid"]) if free else (ei.get("uid") is None),
-                   note=f"uid handed to the constructor: {ei.get('uid')!r}")
+        if kind == "object-with-uid":
+            # copy(uid=...): the identifier asked for is the new entity's; the type keeps its own
+            ctx.oblige("a-requested-identifier-is-the-entitys", ei.get("uid") is e["req"], note=f"uid handed to the constructor: {ei.get('uid')!r}")
+            ctx.oblige("a-requested-identifier-is-not-the-types", tk.items.get("uid") is e["type_uid"],
+                       note="the identifier asked for the entity was also given to its type: no class carries that type identifier, nothing is created, and the caller goes on to copy the children under 'no parent'")
+        else:
+            ctx.oblige("identifier-kept-exactly-when-free-in-the-target", (ei.get("uid") is e["ent"].attrs["uid"]) if free else (ei.get("uid") is None),
+                       note=f"uid handed to the constructor: {ei.get('uid')!r}")
         looks = [p for k, p in ev if k == "lookup"]
-        ctx.oblige("freedom-is-decided-by-a-lookup-in-the-target-workspace", len(looks) >= 1 and all(p["uid"] is e["ent"].attrs["uid"] for p in looks) and not [1 for k, p in ev if k == "lookup_in_source_workspace"])
+        ctx.oblige("freedom-is-decided-by-a-lookup-in-the-target-workspace", (len(looks) >= 1 or kind == "object-with-uid") and all(p["uid"] is e["ent"].attrs["uid"] for p in looks) and not [1 for k, p in ev if k == "lookup_in_source_workspace"])
         ctx.oblige("the-copy-hangs-under-the-requested-parent", ei.get("parent") is (e["root"] if target == "workspace" else e["parent"]))
         ctx.oblige("property-groups-and-depth-channel-are-not-handed-over", "property_groups" not in ei and "depths" not in ei,
                    note="the copy would point at property groups / the DEPTH data of its source")
